@@ -136,7 +136,8 @@ def full_check(ctx, cls, n, scripts, opts, spec, entry, arg, tol, faults, case, 
         elif entry == 'solve_period':
             ra, rb = call(A.solve_period, A.span[arg], trace=spec, **opts), call(B.solve_period, B.span[arg], **opts)
         else:
-            ra, rb = call(A.solve_t, arg, trace=spec, **opts), call(B.solve_t, arg, **opts)
+            targ = np.int64(arg) if case.get('arg_numpy') else arg      # a position taken from a NumPy array is a position
+            ra, rb = call(A.solve_t, targ, trace=spec, **opts), call(B.solve_t, targ, **opts)
         ctx.count('twin_runs_compared')
         if ra != rb:
             ctx.violation('tracing-changes-outcome', f'{entry}({arg}, trace={spec!r}, {opts}) -> {ra}; without trace -> {rb}', case)
@@ -268,7 +269,7 @@ def run_shard(ctx):
             faults = (None, rng.choice(['exc', 'warn']))
         repeat = 2 if rng.random() < 0.3 else 1
         interlude = rng.choice(['none', 'list-assign', 'copy', 'copy-then-list-assign'])
-        case = dict(n=n, cls=cls.__name__, trace=spec, entry=entry, arg=arg, opts=opts, faults=list(faults), repeat=repeat, interlude=interlude, twin=rng.choice(['same', 'plain']),
+        case = dict(n=n, cls=cls.__name__, trace=spec, entry=entry, arg=arg, arg_numpy=(entry == 'solve_t' and rng.random() < 0.3), opts=opts, faults=list(faults), repeat=repeat, interlude=interlude, twin=rng.choice(['same', 'plain']),
                     scripts={str(k): v for k, v in scripts.items()})
         ctx.evaluation(case, nontrivial=True, sample=case)
         ctx.seen('trace_specs', repr(spec))
